@@ -193,7 +193,7 @@ def check(ctx, rep, prop):
     try:
         f1 = ctx.facts("uuid")
     except F.ExtractError as e:
-        rep.undecidable(rule, "%s/feature-uuid" % rule, construct="configuration `uuid` does not build: %s" % str(e)[:200])
+        rep.undecidable(rule, "%s/feature-uuid" % rule, construct="configuration `uuid` does not build: %s" % " ".join(str(e).split())[-400:])
         return
     diff = []
     n_shared = 0
